@@ -49,7 +49,7 @@ class C11(Prop):
         mode = MODES[s.draw(4, "mode")]
         end = ENDS[s.weighted((4, 2, 2, 1), "end")]
         n_items = s.draw(5, "items")
-        item_kinds = [s.weighted((4, 2, 1, 1, 1), "item-kind") for _ in range(n_items)]
+        item_kinds = [s.weighted((4, 2, 1, 1, 1, 1), "item-kind") for _ in range(n_items)]
         steps = []
         for i in range(n_items + 1):
             acts = []
@@ -66,7 +66,8 @@ class C11(Prop):
         second_first = bool(second and s.draw(2, "second-first"))
         def item_value(i):
             # falsy and None items are legitimate elements of a stream
-            return (("item", i), None, 0, False, "")[item_kinds[i]]
+            from haiway import MISSING
+            return (("item", i), None, 0, False, "", MISSING)[item_kinds[i]]  # the library's own MISSING is a legal item too
 
         sim.program = {"mode": mode, "end": end, "items": n_items, "item_kinds": item_kinds, "steps": steps, "gen_raises": gen_raises,
                        "cancel_consumer": cancel_consumer, "break_after": break_after, "second_stream": int(second),
@@ -243,7 +244,8 @@ class C11(Prop):
                     st["received"].append(item)
                     sim.event("item", k)
                     want_item = item_value(k) if k < n_items else "<none>"
-                    if item != want_item or type(item) is not type(want_item):
+                    if (item is not want_item) if type(want_item).__name__ == "Missing" else (
+                            item != want_item or type(item) is not type(want_item)):
                         sim.fail("R1-items", f"received {item!r} as element {k}, the generator yielded {want_item!r}")
                     k += 1
                     compare(before, f"between items (after item {k - 1})", "R3-consumer-context-between-items")
